@@ -24,4 +24,58 @@ CHECKS = {
         "exhaustive_key": "exhaustive_cases",
         "assumptions": ["pure helper functions; controller part runs on the simulated cluster"] + COMMON_ASSUMPTIONS,
     },
+
+    "C03": {
+        "level": "exploration",
+        "rule": "case = generated world (spec with replicas 0..5, slots, policy, strategy, partition; 1-3 template revisions created by the real "
+                "controller; constructed or empty pod population over ordinals 0..8 incl. failed/terminating/outdated/orphan pods) plus a history of "
+                "<= 40 ops (reconcile with fresh/stale caches, permuted cache order, injected API faults and mid-reconcile interference; kubelet steps; "
+                "user edits of replicas/slots/template/partition; pod deletions; fair settle rounds). Oracle: every pod delete of every reconcile is "
+                "classified against the cache snapshot that reconcile saw (outside desired set / failed pod immediately re-created / outdated pod at or "
+                "above the partition under RollingUpdate); plus a metamorphic scale-in-at-slot-k scenario. Non-trivial = some reconcile issued a delete "
+                "while its snapshot held both a condemned and a desired pod, or a slot below the top ordinal; distinct = distinct world+history",
+        "legs": [
+            {"test": "TestC03", "quick": {"checks": 3000}, "thorough": {"checks": 400000, "shards": 16}},
+            {"test": "TestC03Meta", "quick": {"checks": 1500}, "thorough": {"checks": 200000, "shards": 16}},
+        ],
+        "floors": {"delete:scale-in": 0.2, "delete:update": 0.03, "delete:replace-failed": 0.02},
+        "assumptions": COMMON_ASSUMPTIONS,
+    },
+    "C04": {
+        "level": "exploration",
+        "rule": "same world/history generator as C03 (plus 'set gets a deletion timestamp'); oracle: every pod create of every reconcile must name a "
+                "desired ordinal of the snapshot's set, vacant among the snapshot's member pods (or just freed by deleting a failed pod), and the "
+                "snapshot's set must not be deleting. Non-trivial = a reconcile created a pod while its snapshot had a vacant slot ordinal below the "
+                "top, or an occupied desired ordinal, or a deleting set with vacancies; distinct = distinct world+history",
+        "legs": [{"test": "TestC04", "quick": {"checks": 3000}, "thorough": {"checks": 400000, "shards": 16}}],
+        "assumptions": COMMON_ASSUMPTIONS,
+    },
+    "C05": {
+        "level": "exploration",
+        "rule": "world/history generator of C03 restricted to OrderedReady sets; oracle per reconcile: <= 1 ordinal touched by pod creates/deletes; a "
+                "create needs every lower desired pod Running+Ready+not terminating in the snapshot; a scale-in delete needs every desired pod "
+                "Running+Ready and must hit the highest condemned pod; an update delete needs no condemned pod and all desired pods healthy. "
+                "Non-trivial = snapshot with action-worthy work and at least one blocking condition (or >= 2 condemned pods); distinct = world+history",
+        "legs": [{"test": "TestC05", "quick": {"checks": 3000}, "thorough": {"checks": 400000, "shards": 16}}],
+        "assumptions": COMMON_ASSUMPTIONS,
+    },
+    "C07": {
+        "level": "exploration",
+        "rule": "world/history generator of C03 weighted towards template edits, partition edits and settle rounds (2-3 revisions in flight); oracle per "
+                "reconcile: update deletes only under RollingUpdate, at ordinals >= partition, at most one, and only when every higher desired pod is up "
+                "to date + Running + Ready and untouched in this reconcile; created pods carry the revision their ordinal calls for (current below the "
+                "partition, update at/above) and are built from that revision's template. Non-trivial = a reconcile with an update delete or a (re)create "
+                "while current != update revision; distinct = world+history",
+        "legs": [{"test": "TestC07", "quick": {"checks": 3000}, "thorough": {"checks": 400000, "shards": 16}}],
+        "assumptions": COMMON_ASSUMPTIONS,
+    },
+    "C14": {
+        "level": "exploration",
+        "rule": "world/history generator of C03 restricted to Parallel sets, mostly constructed populations; oracle per error-free reconcile: every "
+                "vacant desired ordinal of the snapshot is created and every live condemned pod deleted in that reconcile, <= 1 update delete. "
+                "Non-trivial = k+m >= 2 with at least one unhealthy/terminating bystander pod; distinct = world+history",
+        "legs": [{"test": "TestC14", "quick": {"checks": 3000}, "thorough": {"checks": 400000, "shards": 16}}],
+        "floors": {"parallel-reconcile-with-scaling-work": 0.3},
+        "assumptions": COMMON_ASSUMPTIONS,
+    },
 }
